@@ -6,26 +6,69 @@ namespace EaselModel.Buffer
 
 /-- under a stable anchor (anchor at window position 0) the "shift left" block of `buffer_refill` never moves a byte -/
 theorem shiftLeft_stable (b : Buf) (ha : b.anchor = some 0) :
-    ∃ b1, shiftLeft b = some b1 ∧ b1.memgen = b.memgen ∧ b1.n = b.n ∧ b1.pagesize = b.pagesize ∧ b1.balloc = b.balloc := by
+    ∃ b1, shiftLeft b = some b1 ∧ b1.memgen = b.memgen ∧ b1.n = b.n ∧ b1.pagesize = b.pagesize ∧ b1.balloc = b.balloc ∧
+      b1.stab = b.stab := by
   unfold shiftLeft
+  by_cases hpin : pinned b = true
+  · rw [if_pos hpin]; exact ⟨b, rfl, rfl, rfl, rfl, rfl, rfl⟩
+  rw [if_neg hpin]
+  unfold shiftLeft0
   split
   · rw [ha]
     simp only [Nat.zero_le, if_true]
-    refine ⟨_, rfl, ?_, ?_, rfl, rfl⟩
+    refine ⟨_, rfl, ?_, ?_, rfl, rfl, rfl⟩
     · show (if 0 < 0 ∧ 0 < b.n then b.memgen + 1 else b.memgen) = b.memgen
       rw [if_neg (by omega)]
     · show (b.mem.drop 0).length = b.mem.length
       rw [List.drop_zero]
-  · exact ⟨b, rfl, rfl, rfl, rfl, rfl⟩
+  · exact ⟨b, rfl, rfl, rfl, rfl, rfl, rfl⟩
 
-/-- **Pointer validity under a stable anchor, exactly.** A `buffer_refill` under a stable anchor leaves every pointer
+/-- **Pointer validity under a stable anchor — the repaired code (fix C05-stable-anchor-keep-oldmem).** While `bf->stable` is set
+    (`pinned`: the working tree has the repair and a stable anchor holds) NO `buffer_refill`, whatever it has to read and
+    however little room is left, moves or frees a byte that was handed out: the shift is skipped and the window grows into a
+    new block while the old one is kept. No hypothesis on the window, the anchor position, `nmin` or the room. -/
+theorem refill_pinned (b : Buf) (nmin : Nat) (hpin : pinned b = true) :
+    (refill b nmin).2.memgen = b.memgen ∧ (refill b nmin).2.stab = b.stab ∧ (refill b nmin).2.base = b.base ∧
+      b.mem <+: (refill b nmin).2.mem := by
+  unfold refill
+  split
+  · exact ⟨rfl, rfl, rfl, List.prefix_refl _⟩
+  · split
+    · exact ⟨rfl, rfl, rfl, List.prefix_refl _⟩
+    · split
+      · exact ⟨rfl, rfl, rfl, List.prefix_refl _⟩
+      · have hs : shiftLeft b = some b := by unfold shiftLeft; rw [if_pos hpin]
+        rw [hs]
+        have hg : (grow b).memgen = b.memgen ∧ (grow b).stab = b.stab ∧ (grow b).base = b.base ∧ (grow b).mem = b.mem := by
+          unfold grow; rw [if_pos hpin]; unfold growR; split <;> exact ⟨rfl, rfl, rfl, rfl⟩
+        refine ⟨?_, ?_, ?_, ?_⟩
+        · show (grow b).memgen = _; exact hg.1
+        · show (grow b).stab = _; exact hg.2.1
+        · show (grow b).base = _; exact hg.2.2.1
+        · show b.mem <+: (grow b).mem ++ _
+          rw [hg.2.2.2]; exact List.prefix_append _ _
+
+/-- … and the window never outgrows twice what it has to hold: after a pinned refill `balloc ≤ max (old balloc) (2·(n+pagesize))`
+    — the retired blocks (each at most half the next) sum to less than the live one -/
+theorem grow_pinned_bound (b : Buf) (hpin : pinned b = true) :
+    (grow b).balloc ≤ max b.balloc (2 * (b.n + b.pagesize)) ∧ b.n + b.pagesize ≤ max b.balloc (grow b).balloc ∧
+      (b.balloc < (grow b).balloc → 2 * b.balloc ≤ (grow b).balloc) := by
+  unfold grow; rw [if_pos hpin]; unfold growR
+  split
+  · show max (b.n + b.pagesize) (2 * b.balloc) ≤ _ ∧ _ ≤ max b.balloc (max (b.n + b.pagesize) (2 * b.balloc)) ∧
+      (b.balloc < max (b.n + b.pagesize) (2 * b.balloc) → 2 * b.balloc ≤ max (b.n + b.pagesize) (2 * b.balloc))
+    omega
+  · omega
+
+/-- **Pointer validity under a stable anchor, exactly — the code WITHOUT the repair** (`pinned b = false`). A `buffer_refill` under a stable anchor leaves every pointer
     handed out valid (no `memmove`, no `realloc`) if and only if it does not read at all (no stream / stream at EOF / enough
     bytes already loaded) or the next page still fits: `n + pagesize ≤ balloc`. This is the strongest true statement;
     the property's "stay valid until it is raised" is false of the code whenever a refill has to grow the allocation. -/
-theorem refill_stable_iff (b : Buf) (nmin : Nat) (hp : b.pos ≤ b.n) (ha : b.anchor = some 0) :
+theorem refill_stable_iff (b : Buf) (nmin : Nat) (hnp : pinned b = false) (hp : b.pos ≤ b.n) (ha : b.anchor = some 0) :
     (refill b nmin).2.memgen = b.memgen ↔
       (b.hasfp = false ∨ b.eof = true ∨ nmin + b.pagesize ≤ b.n - b.pos ∨ b.n + b.pagesize ≤ b.balloc) := by
-  obtain ⟨b1, hs, hg1, hn1, hps1, hba1⟩ := shiftLeft_stable b ha
+  obtain ⟨b1, hs, hg1, hn1, hps1, hba1, hst1⟩ := shiftLeft_stable b ha
+  have hnp1 : pinned b1 = false := by unfold pinned at hnp ⊢; rw [hst1]; exact hnp
   unfold refill
   by_cases h1 : (!b.hasfp || b.eof) = true
   · rw [if_pos h1]
@@ -44,6 +87,8 @@ theorem refill_stable_iff (b : Buf) (nmin : Nat) (hp : b.pos ≤ b.n) (ha : b.an
       have hl : (load (grow b1)).2.memgen = (grow b1).memgen := rfl
       rw [hl]
       unfold grow
+      rw [if_neg (by rw [hnp1]; decide)]
+      unfold grow0
       rw [hn1, hps1, hba1]
       by_cases h3 : b.n + b.pagesize > b.balloc
       · rw [if_pos h3]
@@ -63,13 +108,15 @@ theorem refill_stable_iff (b : Buf) (nmin : Nat) (hp : b.pos ≤ b.n) (ha : b.an
     bytes, cursor not at the window start), everything from the anchor on is kept but *moved* to the window start — every
     pointer handed out since the anchor was set dangles. (That is the documented difference between `SetAnchor` and
     `SetStableAnchor`: only the latter rebases the window at once so that later refills need not move it.) -/
-theorem plain_anchor_moves (b : Buf) (nmin a : Nat) (hf : b.hasfp = true) (he : b.eof = false) (ha : b.anchor = some a)
+theorem plain_anchor_moves (b : Buf) (nmin a : Nat) (hnp : pinned b = false) (hf : b.hasfp = true) (he : b.eof = false) (ha : b.anchor = some a)
     (ha0 : 0 < a) (hap : a ≤ b.pos) (hpn : b.pos < b.n) (hneed : b.n - b.pos < nmin + b.pagesize)
     (hfull : b.balloc - b.n < b.pagesize) : (refill b nmin).2.memgen ≠ b.memgen := by
   unfold refill
   rw [if_neg (by simp [hf, he]), if_neg (by omega), if_neg (by omega : ¬ b.pos > b.n)]
   have hs : shiftLeft b = some (dropFront { b with anchor := some 0 } a) := by
     unfold shiftLeft
+    rw [if_neg (by rw [hnp]; decide)]
+    unfold shiftLeft0
     rw [if_pos ⟨hfull, by omega⟩, ha]
     simp only [hap, if_true]
   rw [hs]
@@ -79,7 +126,10 @@ theorem plain_anchor_moves (b : Buf) (nmin a : Nat) (hf : b.hasfp = true) (he : 
   have hd : (dropFront { b with anchor := some 0 } a).memgen = b.memgen + 1 := by
     show (if 0 < a ∧ a < b.n then b.memgen + 1 else b.memgen) = b.memgen + 1
     rw [if_pos ⟨ha0, by omega⟩]
+  have hnp1 : pinned (dropFront { b with anchor := some 0 } a) = false := hnp
   unfold grow
+  rw [if_neg (by rw [hnp1]; decide)]
+  unfold grow0
   split
   · show (dropFront { b with anchor := some 0 } a).memgen + 1 ≠ b.memgen
     rw [hd]; omega
